@@ -317,6 +317,17 @@ theorem identity_alias_env (sem : Sem V) (sub) (ρ ρ' : Env V) (x o : Name) (at
       exact h.symm
     rw [h', Env.set_get_same, Env.set_get_ne ρ v (Ne.symm hne), hx]
 
+theorem intAttr_some' {n : Node} {k : String} {i : Int} (h : intAttr n k none = some i) :
+    (n.attrs.find? (·.1 == k)).map (·.2) = some (Attr.int i) := by
+  unfold intAttr Node.attr at h
+  split at h
+  · rename_i j hj
+    simp only [Option.some.injEq] at h
+    subst h
+    exact hj
+  · simp at h
+  · split at h <;> simp at h
+
 /-! ### fragment A and the simulation -/
 
 def ClsP (n : Node) : Prop := n.isOp "Constant" = false ∧ ∀ v, lookupEvaluator n v = none
@@ -643,13 +654,148 @@ theorem visitNodes_simA (sem : Sem V) (ctx : Ctx) (hnf : ctx.isFunction = false)
           · simp only [bindInits]
             rw [← hρ1]
             exact h4
+      -- a substituted input differs from the output as soon as the original input does
+      have substNe : ∀ (x0 x o : Name), substOne st (some x0) = some x → some x0 ∈ n0.inputs → n0.outputs = [o] → x0 ≠ o → o ≠ x := by
+        intro x0 x o hsx hx0in hout0 hne e
+        simp only [substOne, St.getSym, Option.bind] at hsx
+        split at hsx
+        · rename_i y hy
+          have hyx : y = x := by simpa using hsx
+          have := (hI.aliasFut x0 y hy n0 List.mem_cons_self).2
+          rw [hout0, hyx, ← e] at this
+          simp at this
+        · have : x0 = x := by simpa using hsx
+          exact hne (by rw [this, e])
+      -- the node is replaced by one new node `opn(x) → o` that computes the same environment
+      have replCase : ∀ (o x : Name) (opn : String) (attrs : List (String × Attr)) (st2 : St),
+          n.outputs = [o] → mentionsTop n x = true → SameIS st0 st2 →
+          (FragA (mkNode opn [some x] [o] attrs) ∧
+            ((mkNode opn [some x] [o] attrs).isOp "Constant" = true → ConstMarkSound sem ctx (mkNode opn [some x] [o] attrs))) →
+          evalNode sem sub ρ (mkNode opn [some x] [o] attrs) = some ρ1 →
+          ∃ new added,
+            (match applyRepl ctx st2 n (oneRepl st0 opn x attrs) with
+              | .error m => ({ st2 with err := some m }, acc.reverse ++ n0 :: rest, ai)
+              | .ok (newNodes, inits, st) => visitNodes ctx vg f st (newNodes ++ rest) acc (ai ++ inits)).2.1 = acc.reverse ++ new ∧
+            (match applyRepl ctx st2 n (oneRepl st0 opn x attrs) with
+              | .error m => ({ st2 with err := some m }, acc.reverse ++ n0 :: rest, ai)
+              | .ok (newNodes, inits, st) => visitNodes ctx vg f st (newNodes ++ rest) acc (ai ++ inits)).2.2 = ai ++ added ∧
+            (∀ p ∈ added, ∃ m ∈ n0 :: rest, m.outputs.contains p.1 = true) ∧
+            evalNodes (evalNode sem sub) (bindInits sem ρ added) new = some ρf ∧
+            ((match applyRepl ctx st2 n (oneRepl st0 opn x attrs) with
+              | .error m => ({ st2 with err := some m }, acc.reverse ++ n0 :: rest, ai)
+              | .ok (newNodes, inits, st) => visitNodes ctx vg f st (newNodes ++ rest) acc (ai ++ inits)).1.err.isSome = true ∨
+              AliasOK (match applyRepl ctx st2 n (oneRepl st0 opn x attrs) with
+              | .error m => ({ st2 with err := some m }, acc.reverse ++ n0 :: rest, ai)
+              | .ok (newNodes, inits, st) => visitNodes ctx vg f st (newNodes ++ rest) acc (ai ++ inits)).1 ρf) ∧
+            (∀ m ∈ new, m.subs = []) := by
+        intro o x opn attrs st2 hno hmx his2 hmfr hem
+        have hxfv : x ≠ freshOf st0 := hnfn x hmx st0.fresh
+        obtain ⟨l, happ⟩ := applyRepl_one ctx hnf st2 n o (freshOf st0) x opn attrs hno hxfv
+        have happ' : applyRepl ctx st2 n (oneRepl st0 opn x attrs) = .ok ([mkNode opn [some x] [o] attrs], [],
+            replState st2 n o (freshOf st0) (mkNode opn [some x] [o] attrs) l) := happ
+        simp only [happ', List.cons_append, List.nil_append, List.append_nil]
+        have hmm : ∀ y, mentionsTop (mkNode opn [some x] [o] attrs) y = true → mentionsTop n y = true := by
+          intro y hy
+          have : y = x ∨ y = o := by
+            simpa [mentionsTop, mkNode, Node.inputs, Node.outputs] using hy
+          rcases this with rfl | rfl
+          · exact hmx
+          · exact mentions_of_output (by rw [hno]; simp)
+        have hD0 := (hD.sameIS hspec2).sameIS his2
+        have hfv : st2.constOf (freshOf st0) = none := by
+          cases hc : st2.constOf (freshOf st0) with
+          | none => rfl
+          | some c =>
+            rw [his2.constOf, hspec2.constOf] at hc
+            exact absurd rfl (hI.constNF _ c hc st0.fresh)
+        have hfvd : (st2.getInfo (freshOf st0)).dtype = none := by
+          cases hc : (st2.getInfo (freshOf st0)).dtype with
+          | none => rfl
+          | some d => exact absurd rfl (hD0.2 _ d hc st0.fresh)
+        obtain ⟨hpsym, hpc⟩ := inheritInfo_plain st2 o (freshOf st0) hfv
+        have hs4 := sameIS_replState st2 n o (freshOf st0) (mkNode opn [some x] [o] attrs) l
+        have hI4 : Inv2 sem (replState st2 n o (freshOf st0) (mkNode opn [some x] [o] attrs) l) ρ
+            (mkNode opn [some x] [o] attrs :: rest) := by
+          apply (hIn.replace_head (n := mkNode opn [some x] [o] attrs) (by rw [hno]; rfl)).weaken
+          · intro y c hy
+            rw [hs4.constOf] at hy
+            have := hpc y c hy
+            rw [his2.constOf, hspec2.constOf] at this
+            exact this
+          · intro y s hy
+            rw [hs4.2, hpsym, lookupA_erase] at hy
+            by_cases hyo : y = o
+            · simp [hyo] at hy
+            · simp only [hyo, if_false] at hy
+              rw [his2.2, hspec2.2] at hy
+              exact hy
+        have hD4 : DtOK L (replState st2 n o (freshOf st0) (mkNode opn [some x] [o] attrs) l) ρf := by
+          apply hD0.step
+          intro y dt hy
+          rw [getInfo_sameIS hs4, getInfo_inheritInfo] at hy
+          left
+          by_cases hyf : y = freshOf st0
+          · simp [hyf] at hy
+          · simp only [hyf, if_false] at hy
+            by_cases hyo : y = o
+            · subst hyo
+              simp only [if_true, hfvd] at hy
+              cases hold : (st2.getInfo y).dtype with
+              | some d => rw [hold] at hy; exact hy
+              | none => rw [hold] at hy; simp [orElse] at hy
+            · simp only [hyo, if_false] at hy
+              exact hy
+        have hev' : evalNodes (evalNode sem sub) ρ (mkNode opn [some x] [o] attrs :: rest) = some ρf := by
+          simp only [evalNodes, hem, Option.bind]
+          exact he2
+        have hfr' : ∀ k ∈ mkNode opn [some x] [o] attrs :: rest,
+            FragA k ∧ (k.isOp "Constant" = true → ConstMarkSound sem ctx k) := by
+          intro k hk
+          rcases List.mem_cons.mp hk with rfl | hk'
+          · exact hmfr
+          · exact hfrrest k hk'
+        have hNF' : ∀ k ∈ mkNode opn [some x] [o] attrs :: rest, NodeNF k := by
+          intro k hk
+          rcases List.mem_cons.mp hk with rfl | hk'
+          · exact fun y hy => hnfn y (hmm y hy)
+          · exact hNFrest k hk'
+        have hCMT' : ∀ k ∈ mkNode opn [some x] [o] attrs :: rest, k.isOp "Constant" = true → ConstMarkTyped L ctx k := by
+          intro k hk
+          rcases List.mem_cons.mp hk with rfl | hk'
+          · intro hk0
+            exfalso
+            rcases hmfr.1.2.2 with hP | hK | hI' | hR' | hC' | hCL'
+            · rw [hP.1] at hk0; exact absurd hk0 (by decide)
+            · have := hK.2.1; simp [mkNode, Node.inputs] at this
+            · have h1 : (mkNode opn [some x] [o] attrs).op = "Identity" := hI'.1
+              simp [Node.isOp, h1] at hk0
+            · rcases hR'.2 with ⟨_, _, _, _, h⟩
+              rcases h with ⟨h1, _⟩ | ⟨h1, _⟩ <;> simp [Node.isOp, h1] at hk0
+            · have h1 := hC'.1; simp [Node.isOp, h1] at hk0
+            · have h1 := hCL'.1; simp [Node.isOp, h1] at hk0
+          · exact hCMTrest k hk'
+        obtain ⟨newr, addedr, h1, h2, h3, h4, h5, h6⟩ :=
+          ih (mkNode opn [some x] [o] attrs :: rest) _ acc ai ρ ρf hfr' hNF' hCMT' (orderOK_replace_head hmm hordn) hI4 hD4 hev'
+        refine ⟨newr, addedr, h1, h2, ?_, h4, h5, h6⟩
+        intro p hp
+        obtain ⟨k, hk, hko⟩ := h3 p hp
+        rcases List.mem_cons.mp hk with rfl | hk'
+        · exact ⟨n0, List.mem_cons_self, by rw [← hnout, hno]; exact hko⟩
+        · exact ⟨k, List.mem_cons_of_mem _ hk', hko⟩
+      -- …in particular by `Identity(x)`
+      have idCase : ∀ (o x : Name) (st2 : St), n.outputs = [o] → mentionsTop n x = true → o ≠ x → SameIS st0 st2 →
+          evalNode sem sub ρ (mkNode "Identity" [some x] [o]) = some ρ1 → _ :=
+        fun o x st2 hno hmx hox his2 hem =>
+          replCase o x "Identity" [] st2 hno hmx his2
+            ⟨⟨rfl, rfl, Or.inr (Or.inr (Or.inl ⟨rfl, rfl, x, o, rfl, rfl, hox⟩))⟩,
+              fun h => by simp [Node.isOp, mkNode, Node.op] at h⟩ hem
       simp only [visitNodes]
       split
       · rename_i herr
         exact stuck st herr
       · rw [processNode_noref ctx st n0 hfr0.1.2.1, hnn, hst0]
         have hdom : n.domain = n0.domain := by rw [hspec1, setInputs_domain]
-        rcases hfr0.1.2.2 with hP | hK | hIcls | hR
+        rcases hfr0.1.2.2 with hP | hK | hIcls | hR | hC | hCL
         · -- plain operator
           have hev : ∀ v, lookupEvaluator n v = none := fun v => by rw [hspec1, lookupEvaluator_setInputs]; exact hP.2 v
           simp only [hP.1, Bool.false_eq_true, if_false]
@@ -823,6 +969,7 @@ theorem visitNodes_simA (sem : Sem V) (ctx : Ctx) (hnf : ctx.isFunction = false)
                 simp [hndom, hnop, hreg.1, this]
               simp only [evalPartial, hev, finishNode]
               exact cascade st0 v (fun y => hspec2.constOf y) (fun x s hx => Or.inl (by rw [hspec2.2] at hx; exact hx))
+                (hD.sameIS hspec2)
             · obtain ⟨x, hsx⟩ := substOne_some st x0
               have hfacts : ∃ tl, n.inputs = some x :: tl ∧ ReplId n v x ∧
                   (∀ (w : V) args vs, args.length = tl.length →
@@ -846,84 +993,163 @@ theorem visitNodes_simA (sem : Sem V) (ctx : Ctx) (hnf : ctx.isFunction = false)
               obtain ⟨tl, hxin, hRid, hlawn⟩ := hfacts
               obtain ⟨st2, hep, his2, _, _⟩ := evalPartial_replId st0 n v x hRid
               simp only [hep, finishNode]
-              have hmx : mentionsTop n x = true := mentions_of_input (by rw [hxin]; simp)
-              have hxfv : x ≠ freshOf st0 := hnfn x hmx st0.fresh
-              obtain ⟨l, happ⟩ := applyRepl_idRepl ctx hnf st2 n o (freshOf st0) x hno hxfv
-              have happ' : applyRepl ctx st2 n (idRepl st0 x) = .ok ([mkNode "Identity" [some x] [o]], [],
-                  replState st2 n o (freshOf st0) (mkNode "Identity" [some x] [o]) l) := happ
-              simp only [happ', List.cons_append, List.nil_append, List.append_nil]
-              -- the original input and the output differ, so do the substituted input and the output
-              have hox : o ≠ x := by
-                intro e
-                have hx0in : some x0 ∈ n0.inputs := by
-                  rcases hcls with ⟨_, hin0⟩ | ⟨_, tl0, hin0, _⟩ <;> rw [hin0] <;> simp
-                simp only [substOne, St.getSym, Option.bind] at hsx
-                split at hsx
-                · rename_i y hy
-                  have hyx : y = x := by simpa using hsx
-                  have := (hI.aliasFut x0 y hy n0 List.mem_cons_self).2
-                  rw [hout0, hyx, ← e] at this
-                  simp at this
-                · have : x0 = x := by simpa using hsx
-                  exact hneo x0 hx0in (by rw [this, e])
-              have hmm : ∀ y, mentionsTop (mkNode "Identity" [some x] [o]) y = true → mentionsTop n y = true := by
+              have hx0in : some x0 ∈ n0.inputs := by
+                rcases hcls with ⟨_, hin0⟩ | ⟨_, tl0, hin0, _⟩ <;> rw [hin0] <;> simp
+              have hnc' : n.isOp "Constant" = false := by rw [hspec1, isOp_setInputs]; exact hnc
+              exact idCase o x st2 hno (mentions_of_input (by rw [hxin]; simp)) (substNe x0 x o hsx hx0in hout0 (hneo x0 hx0in)) his2
+                (evalNode_first_input sem sub ρ ρ1 n x o tl hnsubs hnc' hxin hno
+                  (fun w args vs _ hargs hop' => hlawn w args vs (lookupAll_length tl args hargs) hop') (hid []) he1)
+        · -- `Cast`
+          obtain ⟨hcop, hcdom, x0, o, hin0, hout0, hneo, hto0⟩ := hC
+          have hnc : n0.isOp "Constant" = false := by simp [Node.isOp, hcop]
+          simp only [hnc, Bool.false_eq_true, if_false]
+          cases himp : lookupA ctx.imports n0.domain with
+          | none =>
+            simp only [hnsubs, visitSubs, setSubs_nil n hnsubs]
+            exact keepSame _ (SameIS.trans hspec2 ⟨rfl, rfl⟩)
+          | some v =>
+            obtain ⟨x, hsx⟩ := substOne_some st x0
+            have hno : n.outputs = [o] := by rw [hnout, hout0]
+            have hnop : n.op = "Cast" := by rw [hspec1, setInputs_op]; exact hcop
+            have hndom : n.domain = "" := by rw [hdom]; exact hcdom
+            have hxin : n.inputs = [some x] := by rw [hspec1, setInputs_inputs, hin0]; simp [hsx]
+            have hnattrs : n.attrs = n0.attrs := by rw [hspec1, setInputs_attrs]
+            have hnc' : n.isOp "Constant" = false := by rw [hspec1, isOp_setInputs]; exact hnc
+            have hx0in : some x0 ∈ n0.inputs := by rw [hin0]; simp
+            have hmx : mentionsTop n x = true := mentions_of_input (by rw [hxin]; simp)
+            have hmo : mentionsTop n o = true := mentions_of_output (by rw [hno]; simp)
+            have hox : o ≠ x := substNe x0 x o hsx hx0in hout0 (hneo x0 hx0in)
+            have hD0 := hD.sameIS hspec2
+            obtain ⟨vx, wo, ws, hvx, hopx, hρ1⟩ := evalNode_unary sem sub ρ ρ1 n x o hnsubs hnc' hxin hno he1
+            have hxfin : ρf x = some vx := by
+              rw [hfin1 x hmx, hρ1, Env.set_get_ne ρ wo hox.symm, hvx]
+            have hto : intAttr n "to" none = intAttr n0 "to" none := by
+              rw [hspec1]; cases n0; rfl
+            rcases evalPartial_cast st0 n v x o hnop hndom hxin hno with ⟨st2, hep, hsym2, hc2, hdt2⟩ | ⟨st2, to, hep, his2, hattr, hdt⟩
+            · simp only [hep, finishNode]
+              refine cascade st2 v (fun y => by rw [hc2, hspec2.constOf])
+                (fun x' s hx => Or.inl (by rw [hsym2, hspec2.2] at hx; exact hx)) ?_
+              apply hD0.step
+              intro y dt hy
+              rcases hdt2 y dt hy with h | ⟨hyo, to, hattr, hdtto⟩
+              · exact Or.inl h
+              · right
+                subst hyo
+                refine ⟨hnfn y hmo, ?_⟩
+                intro w hw
+                rw [hfin1 y hmo, hρ1, Env.set_get_same] at hw
+                rw [← Option.some.inj hw, hdtto]
+                rw [hnop, hndom] at hopx
+                exact hct n.attrs vx wo ws to hopx (intAttr_some' hattr)
+            · simp only [hep, finishNode]
+              -- the annotated element type of `x` is `to`, and truthful: `Cast` is the identity on `x`
+              have hsem : sem.op n.op n.domain n.attrs [some vx] = some [vx] := by
+                cases hdx : (st0.getInfo x).dtype with
+                | none =>
+                  exfalso
+                  rw [hdx] at hdt
+                  simp only [Option.getD_none] at hdt
+                  apply hto0
+                  rw [← hto, hattr, ← hdt]
+                  rfl
+                | some dx =>
+                  rw [hdx] at hdt
+                  simp only [Option.getD_some] at hdt
+                  rw [hnop, hndom]
+                  exact L.cast_same n.attrs vx dx (hD0.1 x vx dx hxfin hdx) (by rw [hdt]; exact intAttr_some' hattr)
+              exact idCase o x st2 hno hmx hox his2
+                (evalNode_first_input sem sub ρ ρ1 n x o [] hnsubs hnc' hxin hno
+                  (fun w args vs hw hargs hop' => by
+                    have hargs' : args = [] := by simpa [lookupAll] using hargs.symm
+                    rw [hvx] at hw
+                    have hwv : vx = w := Option.some.inj hw
+                    subst hwv
+                    rw [hargs', hsem] at hop'
+                    rw [← Option.some.inj hop']; rfl) (hid []) he1)
+        · -- `CastLike`
+          obtain ⟨hcop, hcdom, hcattrs, x0, w0, o, hin0, hout0, hneo⟩ := hCL
+          have hnc : n0.isOp "Constant" = false := by simp [Node.isOp, hcop]
+          simp only [hnc, Bool.false_eq_true, if_false]
+          cases himp : lookupA ctx.imports n0.domain with
+          | none =>
+            simp only [hnsubs, visitSubs, setSubs_nil n hnsubs]
+            exact keepSame _ (SameIS.trans hspec2 ⟨rfl, rfl⟩)
+          | some v =>
+            obtain ⟨x, hsx⟩ := substOne_some st x0
+            obtain ⟨w, hsw⟩ := substOne_some st w0
+            have hno : n.outputs = [o] := by rw [hnout, hout0]
+            have hnop : n.op = "CastLike" := by rw [hspec1, setInputs_op]; exact hcop
+            have hndom : n.domain = "" := by rw [hdom]; exact hcdom
+            have hxin : n.inputs = [some x, some w] := by rw [hspec1, setInputs_inputs, hin0]; simp [hsx, hsw]
+            have hnattrs : n.attrs = [] := by rw [hspec1, setInputs_attrs]; exact hcattrs
+            have hnc' : n.isOp "Constant" = false := by rw [hspec1, isOp_setInputs]; exact hnc
+            have hx0in : some x0 ∈ n0.inputs := by rw [hin0]; simp
+            have hw0in : some w0 ∈ n0.inputs := by rw [hin0]; simp
+            have hmx : mentionsTop n x = true := mentions_of_input (by rw [hxin]; simp)
+            have hmw : mentionsTop n w = true := mentions_of_input (by rw [hxin]; simp)
+            have hox : o ≠ x := substNe x0 x o hsx hx0in hout0 (hneo x0 hx0in)
+            have how : o ≠ w := substNe w0 w o hsw hw0in hout0 (hneo w0 hw0in)
+            have hD0 := hD.sameIS hspec2
+            -- the two operands, now and at the end
+            have hargs : ∃ vx vw, ρ x = some vx ∧ ρ w = some vw := by
+              simp only [evalNode, hxin, lookupAll, lookupIn] at he1
+              cases hx : ρ x with
+              | none => simp [hx] at he1
+              | some vx =>
+                cases hw : ρ w with
+                | none => simp [hx, hw] at he1
+                | some vw => exact ⟨vx, vw, rfl, rfl⟩
+            obtain ⟨vx, vw, hvx, hvw⟩ := hargs
+            have hfinx : ρf x = some vx := by rw [hfin1 x hmx, evalNode_get_other sem he1 (by rw [hno]; simp; exact hox.symm), hvx]
+            have hfinw : ρf w = some vw := by rw [hfin1 w hmw, evalNode_get_other sem he1 (by rw [hno]; simp; exact how.symm), hvw]
+            have hla : lookupAll ρ n.inputs = some [some vx, some vw] := by
+              simp [hxin, lookupAll, lookupIn, hvx, hvw]
+            rcases evalPartial_castlike st0 n v x w hnop hndom hxin with ⟨st2, hep, his2⟩ | ⟨st2, dw, hep, his2, hdw0, hdw, hdx⟩ | ⟨st2, dw, hep, his2, hdw0, hdw⟩
+            · simp only [hep, finishNode]
+              exact cascade st2 v (fun y => by rw [his2.constOf, hspec2.constOf])
+                (fun x' s hx => Or.inl (by rw [his2.2, hspec2.2] at hx; exact hx)) (hD0.sameIS his2)
+            · simp only [hep, finishNode]
+              have hcl := L.castlike_is_cast vx vw dw (hD0.1 w vw dw hfinw hdw)
+              have hsame := L.cast_same [("to", Attr.int dw)] vx dw (hD0.1 x vx dw hfinx hdx) rfl
+              exact idCase o x st2 hno hmx hox his2
+                (evalNode_first_input sem sub ρ ρ1 n x o [some w] hnsubs hnc' hxin hno
+                  (fun u args vs hu hargs hop' => by
+                    have hargs' : args = [some vw] := by
+                      simp [lookupAll, lookupIn, hvw] at hargs
+                      exact hargs.symm
+                    rw [hvx] at hu
+                    have huv : vx = u := Option.some.inj hu
+                    subst huv
+                    rw [hargs', hnop, hndom, hnattrs, hcl, hsame] at hop'
+                    rw [← Option.some.inj hop']; rfl) (hid []) he1)
+            · simp only [hep, finishNode]
+              have hcl := L.castlike_is_cast vx vw dw (hD0.1 w vw dw hfinw hdw)
+              have hmm : ∀ y, mentionsTop (mkNode "Cast" [some x] [o] [("to", Attr.int dw)]) y = true → mentionsTop n y = true := by
                 intro y hy
                 have : y = x ∨ y = o := by
                   simpa [mentionsTop, mkNode, Node.inputs, Node.outputs] using hy
                 rcases this with rfl | rfl
                 · exact hmx
                 · exact mentions_of_output (by rw [hno]; simp)
-              have hfv : st2.constOf (freshOf st0) = none := by
-                cases hc : st2.constOf (freshOf st0) with
-                | none => rfl
-                | some c =>
-                  rw [his2.constOf, hspec2.constOf] at hc
-                  exact absurd rfl (hI.constNF _ c hc st0.fresh)
-              obtain ⟨hpsym, hpc⟩ := inheritInfo_plain st2 o (freshOf st0) hfv
-              have hs4 := sameIS_replState st2 n o (freshOf st0) (mkNode "Identity" [some x] [o]) l
-              have hI4 : Inv2 sem (replState st2 n o (freshOf st0) (mkNode "Identity" [some x] [o]) l) ρ
-                  (mkNode "Identity" [some x] [o] :: rest) := by
-                apply (hIn.replace_head (n := mkNode "Identity" [some x] [o]) (by rw [hno]; rfl)).weaken
-                · intro y c hy
-                  rw [hs4.constOf] at hy
-                  have := hpc y c hy
-                  rw [his2.constOf, hspec2.constOf] at this
-                  exact this
-                · intro y s hy
-                  rw [hs4.2, hpsym, lookupA_erase] at hy
-                  by_cases hyo : y = o
-                  · simp [hyo] at hy
-                  · simp only [hyo, if_false] at hy
-                    rw [his2.2, hspec2.2] at hy
-                    exact hy
-              have hnc' : n.isOp "Constant" = false := by rw [hspec1, isOp_setInputs]; exact hnc
-              have hem : evalNode sem sub ρ (mkNode "Identity" [some x] [o]) = some ρ1 :=
-                evalNode_first_input sem sub ρ ρ1 n x o tl hnsubs hnc' hxin hno
-                  (fun w args vs _ hargs hop' => hlawn w args vs (lookupAll_length tl args hargs) hop') (hid []) he1
-              have hev' : evalNodes (evalNode sem sub) ρ (mkNode "Identity" [some x] [o] :: rest) = some ρf := by
-                simp only [evalNodes, hem, Option.bind]
-                exact he2
-              have hfr' : ∀ k ∈ mkNode "Identity" [some x] [o] :: rest,
-                  FragA k ∧ (k.isOp "Constant" = true → ConstMarkSound sem ctx k) := by
-                intro k hk
-                rcases List.mem_cons.mp hk with rfl | hk'
-                · refine ⟨⟨rfl, rfl, Or.inr (Or.inr (Or.inl ⟨rfl, rfl, x, o, rfl, rfl, hox⟩))⟩, ?_⟩
-                  intro h
-                  simp [Node.isOp, mkNode, Node.op] at h
-                · exact hfrrest k hk'
-              have hNF' : ∀ k ∈ mkNode "Identity" [some x] [o] :: rest, NodeNF k := by
-                intro k hk
-                rcases List.mem_cons.mp hk with rfl | hk'
-                · exact fun y hy => hnfn y (hmm y hy)
-                · exact hNFrest k hk'
-              obtain ⟨newr, addedr, h1, h2, h3, h4, h5, h6⟩ :=
-                ih (mkNode "Identity" [some x] [o] :: rest) _ acc ai ρ ρf hfr' hNF' (orderOK_replace_head hmm hordn) hI4 hev'
-              refine ⟨newr, addedr, h1, h2, ?_, h4, h5, h6⟩
-              intro p hp
-              obtain ⟨k, hk, hko⟩ := h3 p hp
-              rcases List.mem_cons.mp hk with rfl | hk'
-              · exact ⟨n0, List.mem_cons_self, by rw [hout0]; exact hko⟩
-              · exact ⟨k, List.mem_cons_of_mem _ hk', hko⟩
+              have hmc : (mkNode "Cast" [some x] [o] [("to", Attr.int dw)]).isOp "Constant" = false := by
+                simp [Node.isOp, mkNode, Node.op]
+              refine replCase o x "Cast" [("to", Attr.int dw)] st2 hno hmx his2 ?_ ?_
+              · refine ⟨⟨rfl, rfl, Or.inr (Or.inr (Or.inr (Or.inr (Or.inl ⟨rfl, rfl, x, o, rfl, rfl, ?_, ?_⟩))))⟩, ?_⟩
+                · intro y hy
+                  have : y = x := by simpa [mkNode, Node.inputs] using hy
+                  rw [this]; exact hox.symm
+                · intro h
+                  have : intAttr (mkNode "Cast" [some x] [o] [("to", Attr.int dw)]) "to" none = some (dw : Int) := by
+                    simp [intAttr, Node.attr, mkNode, Node.attrs]
+                  rw [this] at h
+                  have : (dw : Int) = 0 := Option.some.inj h
+                  exact hdw0 (by exact_mod_cast this)
+                · intro h; rw [hmc] at h; exact absurd h (by decide)
+              · rw [← he1]
+                apply evalNode_congr_op sem sub ρ n _ hnsubs rfl hnc' hmc (by rw [hno]; rfl) [some vx, some vw] [some vx] hla
+                  (by simp [mkNode, Node.inputs, lookupAll, lookupIn, hvx])
+                show sem.op "Cast" "" [("to", Attr.int dw)] [some vx] = sem.op n.op n.domain n.attrs [some vx, some vw]
+                rw [hnop, hndom, hnattrs, hcl]
 
 /-! ### graph level -/
 
@@ -956,11 +1182,21 @@ structure FragAWF (sem : Sem V) (ctx : Ctx) (g : Graph) : Prop where
   outs_fresh : ∀ n ∈ g.nodes, ∀ o, n.outputs.contains o = true → g.inputs.contains o = false
   nf : ∀ n ∈ g.nodes, NodeNF n
 
+/-- the element-type annotations handed to the pass are truthful for this execution, and none is about a name `%k` -/
+def AnnotSound {sem : Sem V} (L : OpLaws sem) (d : Nat) (outer : Env V) (g : Graph) (args : List (Option V))
+    (info : List (Name × VInfo)) : Prop :=
+  ∀ ρ0 ρf, startEnv sem outer g args = some ρ0 → evalNodes (evalNode sem (evalGraph sem d)) ρ0 g.nodes = some ρf →
+    (∀ x v dt, ρf x = some v → ((lookupA info x).getD {}).dtype = some dt → L.hasDtype v dt) ∧
+    (∀ x dt, ((lookupA info x).getD {}).dtype = some dt → NF x)
+
 /-- **End-to-end on fragment A, before `_clear_unused_initializers` is applied.** -/
 theorem visitGraph_fragmentA (sem : Sem V) (ctx : Ctx) (hnf : ctx.isFunction = false) (hor : OracleSound sem ctx)
-    (hid : IdentityLaw sem) (hrl : ReplLaws sem) (info : List (Name × VInfo)) (g : Graph) (hwf : FragAWF sem ctx g) (d k : Nat)
+    (hid : IdentityLaw sem) (hrl : ReplLaws sem) (L : OpLaws sem) (hct : CastTyped L) (hot : OracleTyped L ctx)
+    (info : List (Name × VInfo)) (g : Graph) (hwf : FragAWF sem ctx g)
+    (hcmt : ∀ n ∈ g.nodes, n.isOp "Constant" = true → ConstMarkTyped L ctx n) (d k : Nat)
     (outer : Env V) (args : List (Option V)) (hinfo : ConstInfoSound sem outer g args info)
-    (hinfoNF : ∀ x c, ((lookupA info x).getD {}).const = some c → NF x) (vs : List V)
+    (hinfoNF : ∀ x c, ((lookupA info x).getD {}).const = some c → NF x)
+    (hann : AnnotSound L d outer g args info) (vs : List V)
     (he : evalGraph sem (d + 1) outer g args = some vs) :
     evalGraph sem (d + 1) outer (visitGraph ctx (k + 1) (initialState g info) g).2 args = some vs ∧
     ∃ inits' new outs, (visitGraph ctx (k + 1) (initialState g info) g).2 = Graph.mk g.inputs inits' new outs ∧
@@ -990,9 +1226,18 @@ theorem visitGraph_fragmentA (sem : Sem V) (ctx : Ctx) (hnf : ctx.isFunction = f
         · intro x c hx
           simp only [St.constOf, St.getInfo, hinfo0] at hx
           exact hinfoNF x c hx
-      obtain ⟨new, added, h1, h2, h3, h4, h5, h6⟩ := visitNodes_simA sem ctx hnf hor hid hrl (evalGraph sem d) (visitGraph ctx k)
+      have hD : DtOK L (initialState g info) ρf := by
+        obtain ⟨a1, a2⟩ := hann ρ0 ρf hs hn
+        refine ⟨?_, ?_⟩
+        · intro x v dt hv hd
+          simp only [St.getInfo, hinfo0] at hd
+          exact a1 x v dt hv hd
+        · intro x dt hd
+          simp only [St.getInfo, hinfo0] at hd
+          exact a2 x dt hd
+      obtain ⟨new, added, h1, h2, h3, h4, h5, h6⟩ := visitNodes_simA sem ctx hnf hor hid hrl L hct hot (evalGraph sem d) (visitGraph ctx k)
         (stepFuel g + 16 * (initialState g info).uses.length) g.nodes (initialState g info) [] [] ρ0 ρf
-        hwf.nodes hwf.nf hwf.order hI hn
+        hwf.nodes hwf.nf hcmt hwf.order hI hD hn
       simp only [List.reverse_nil, List.nil_append] at h1 h2
       have hres : ∃ outs, (visitGraph ctx (k + 1) (initialState g info) g).2 = Graph.mk g.inputs (g.inits ++ added) new outs ∧
           lookupOuts ρf outs = lookupOuts ρf g.outputs := by
@@ -1031,16 +1276,19 @@ theorem visitGraph_fragmentA (sem : Sem V) (ctx : Ctx) (hnf : ctx.isFunction = f
 /-- **End to end on fragment A**, `_clear_unused_initializers` included, given that what it popped is
 unreferenced in the result (`hprune`: decidable on the result; the driver evaluates it on every case). -/
 theorem foldGraph_fragmentA (sem : Sem V) (ctx : Ctx) (hnf : ctx.isFunction = false) (hor : OracleSound sem ctx)
-    (hid : IdentityLaw sem) (hrl : ReplLaws sem) (info : List (Name × VInfo)) (g : Graph) (hwf : FragAWF sem ctx g) (d : Nat)
+    (hid : IdentityLaw sem) (hrl : ReplLaws sem) (L : OpLaws sem) (hct : CastTyped L) (hot : OracleTyped L ctx)
+    (info : List (Name × VInfo)) (g : Graph) (hwf : FragAWF sem ctx g)
+    (hcmt : ∀ n ∈ g.nodes, n.isOp "Constant" = true → ConstMarkTyped L ctx n) (d : Nat)
     (outer : Env V) (args : List (Option V)) (hinfo : ConstInfoSound sem outer g args info)
-    (hinfoNF : ∀ x c, ((lookupA info x).getD {}).const = some c → NF x) (vs : List V)
+    (hinfoNF : ∀ x c, ((lookupA info x).getD {}).const = some c → NF x)
+    (hann : AnnotSound L d outer g args info) (vs : List V)
     (hprune : ∀ x, (foldGraph ctx info g).1.removed.contains x = true →
       g.inputs.contains x = false ∧
       (visitGraph ctx maxDepth (initialState g info) g).2.outputs.contains x = false ∧
       ∀ n ∈ (visitGraph ctx maxDepth (initialState g info) g).2.nodes, n.inputs.contains (some x) = false)
     (he : evalGraph sem (d + 1) outer g args = some vs) :
     evalGraph sem (d + 1) outer (foldGraph ctx info g).2 args = some vs := by
-  obtain ⟨hev, inits', new, outs, hshape, hplain⟩ := visitGraph_fragmentA sem ctx hnf hor hid hrl info g hwf d 7 outer args hinfo hinfoNF vs he
+  obtain ⟨hev, inits', new, outs, hshape, hplain⟩ := visitGraph_fragmentA sem ctx hnf hor hid hrl L hct hot info g hwf hcmt d 7 outer args hinfo hinfoNF hann vs he
   have hmd : maxDepth = 7 + 1 := rfl
   simp only [foldGraph] at hprune ⊢
   rw [hmd] at hprune ⊢
